@@ -130,7 +130,7 @@ def small_int_product(case, subs, scale, observed) -> bool:
     try:
         with np.errstate(all="ignore"):
             for dt in dict.fromkeys(dts):
-                vals = []
+                vals, solo = [], []
                 for v, key in subs:
                     fa = case["factors"][key]
                     if fa["kind"] == "num":
@@ -140,7 +140,10 @@ def small_int_product(case, subs, scale, observed) -> bool:
                     else:
                         nat = v  # multi-column transforms return floats
                     vals.append(nat)
-                for seq in (vals, vals[::-1]):
+                    solo.append(fa["kind"] == "num")
+                # (the pandas materializer multiplies the single-column factors of a term together first)
+                solo_first = [v for v, s_ in zip(vals, solo) if s_] + [v for v, s_ in zip(vals, solo) if not s_]
+                for seq in (vals, vals[::-1], solo_first, solo_first[::-1]):
                     prod = seq[0]
                     for v in seq[1:]:
                         prod = np.multiply(prod, v)
